@@ -841,8 +841,9 @@ std::string sqf::parser::preprocessor::impl_default::instance::parse_ppinstructi
                         if (!arg.empty())
                         {
                             args.emplace_back(std::move(arg));
-                            arg_start_index = arg_index + 1;
                         }
+                        // always move on, also past an empty parameter name (`#define A(,x)`)
+                        arg_start_index = arg_index + 1;
                     }
                     // Special magic for '#define macro\'
                     content = (trim(line.substr(line[arg_start_index] == ' ' ? arg_start_index + 1 : arg_start_index)));
